@@ -48,7 +48,7 @@ SCRIPTS = [
 ]
 
 
-def _run(script_i, fails, slows, preempt, picks, second=False):
+def _run(script_i, fails, slows, preempt, picks, second=False, second_flushes=False):
     """Returns failure signature or ''."""
     TaskHandler, PushService, g_submit, g_flush, g_check, g_push = _stepped_handler()
     from vlib.stepper import reset_locks
@@ -92,6 +92,17 @@ def _run(script_i, fails, slows, preempt, picks, second=False):
     events = []
 
     accepted = []
+
+    def app2_flush():
+        # a second thread (an atexit hook, a second shutdown) also flushes: it too may only return once everything
+        # accepted so far has finished
+        try:
+            yield from gen_call(th.flush)
+            events.append(("flush-ok", list(state["submitted"]), set(runs.keys()), set(finished)))
+        except BaseException as e:  # noqa
+            if type(e).__module__.startswith("crosshair"):
+                raise
+            events.append(("flush-raised", type(e).__name__))
 
     def app2():
         # a second application thread hits a tracepoint at some point (whenever the schedule lets it run)
@@ -145,7 +156,7 @@ def _run(script_i, fails, slows, preempt, picks, second=False):
         return pool_submit(task, *a)
     th._pool.submit = recording_submit
     if second:
-        sched.spawn("app2", app2())
+        sched.spawn("app2", app2_flush() if second_flushes else app2())
     done_flags = {}
     try:
         sched.run()
@@ -201,17 +212,18 @@ def delivery(si: int, f0: bool, f1: bool, f2: bool, s0: int, s1: int, s2: int, p
     return _run(si, [f0, f1, f2], [s0, s1, s2], [(p1, t1)], [k1, k2])
 
 
-def delivery_two_apps(si: int, f0: bool, p1: int, t1: int, p2: int, t2: int) -> str:
+def delivery_two_apps(si: int, f0: bool, p1: int, t1: int, p2: int, t2: int, a2: int) -> str:
     """
     A second application thread pushes a snapshot at an arbitrary moment (two pre-emptions at SYMBOLIC steps move control
     to it and back): when flush returns, every task accepted so far has finished - a push racing with flush is either
     refused visibly or waited for.
-    PRE: si in (0, 3) and 0 <= p1 <= 50 and 0 <= t1 <= 3 and p1 < p2 <= 60 and 0 <= t2 <= 3
+    The second thread pushes (a2 0) or flushes as well (a2 1).
+    PRE: si in (0, 3) and 0 <= p1 <= 50 and 0 <= t1 <= 3 and p1 < p2 <= 60 and 0 <= t2 <= 3 and 0 <= a2 <= 1
     POST: _ == ""
     """
     world.begin_path()
-    si, f0, t1, t2 = [world.realize(x) for x in (si, f0, t1, t2)]
-    return _run(si, [f0, False, False], [0, 0, 0], [(p1, t1), (p2, t2)], [0], second=True)
+    si, f0, t1, t2, a2 = [world.realize(x) for x in (si, f0, t1, t2, a2)]
+    return _run(si, [f0, False, False], [0, 0, 0], [(p1, t1), (p2, t2)], [0], second=True, second_flushes=bool(a2))
 
 
 def delivery2(si: int, f0: bool, f1: bool, s0: int, s1: int, p1: int, t1: int, p2: int, t2: int, k1: int) -> str:
@@ -293,10 +305,11 @@ CONDITIONS = [
          bounds="quick: 5 application scripts (1-2 pushes, flush at any position, push after flush), each task failing or not; one pre-emption at a SYMBOLIC step "
                 "index (0..70, partitioned by the solver over the steps actually taken) to any of the 3 threads; thorough: 6 scripts (up to 3 pushes), tasks slow by 0-2 steps, "
                 "symbolic picks at forced switches"),
-    dict(fn="delivery_two_apps", cubes={"quick": ["si == 3 and t1 == 3 and t2 == 0 and f0 == False and %s and p2 - p1 <= 14" % r for r in ("p1 <= 8", "8 < p1 <= 16", "16 < p1 <= 24", "24 < p1 <= 32")],
-                                        "thorough": ["si == %d and t1 == %d and t2 == %d and f0 == False" % (s, a, b) for s in (0, 3) for a in (0, 3) for b in range(4)]},
-         twins=["reach@si == 3 and t1 == 3 and t2 == 0 and f0 == False and p1 <= 8 and p2 - p1 <= 14", "mutant:flush_keeps_open@si == 3 and t1 == 3 and t2 == 0 and f0 == False and 16 < p1 <= 24 and p2 - p1 <= 14"], timeout={"quick": 240, "thorough": 900},
-         bounds="application thread (push, flush) + a second application thread pushing once + 2 workers; two pre-emptions at symbolic steps "
+    dict(fn="delivery_two_apps", cubes={"quick": ["si == 3 and t1 == 3 and t2 == 0 and f0 == False and a2 == 0 and %s and p2 - p1 <= 14" % r for r in ("p1 <= 8", "8 < p1 <= 16", "16 < p1 <= 24", "24 < p1 <= 32")] +
+                                                 ["si == 3 and t1 == 3 and t2 == %d and f0 == False and a2 == 1 and %s and p2 - p1 <= 8" % (b, r) for b in (0, 1) for r in ("8 < p1 <= 20", "20 < p1 <= 32")],
+                                        "thorough": ["si == %d and t1 == %d and t2 == %d and f0 == False and a2 == %d" % (s, a, b, c) for s in (0, 3) for a in (0, 3) for b in range(4) for c in (0, 1)]},
+         twins=["reach@si == 3 and t1 == 3 and t2 == 0 and f0 == False and a2 == 0 and p1 <= 8 and p2 - p1 <= 14", "mutant:flush_keeps_open@si == 3 and t1 == 3 and t2 == 0 and f0 == False and a2 == 0 and 16 < p1 <= 24 and p2 - p1 <= 14"], timeout={"quick": 240, "thorough": 900},
+         bounds="application thread (push, flush) + a second application thread pushing once or calling flush as well + 2 workers; two pre-emptions at symbolic steps "
                 "(quick: the first one, at step <= 32, to the second application thread, the second one at most 14 steps later back to the first)"),
     dict(fn="delivery2", cubes={"quick": [], "thorough": ["si == %d and t1 == %d and t2 == %d and f0 == False and f1 == %s and s0 == 0 and s1 == 0 and k1 == 0 and p1 <= 40 and p2 <= 50" % (s, a, b, g)
                                              for s in (0, 3) for a in (1, 2) for b in (0, 1) for g in ("True", "False")]},
